@@ -51,7 +51,7 @@ const streamName = "c16stream"
 
 // Cons is one RTMP / HTTP-FLV / HTTP-TS consumer.
 type Cons struct {
-	Kind   string `json:"kind"`    // rtmp | flv | ts
+	Kind   string `json:"kind"`    // rtmp | flv | ts | rtsp
 	Inc    int    `json:"inc"`     // incarnation during (or right before) which it joins
 	JoinAt int    `json:"join_at"` // -1: after the previous input has gone, before this incarnation's input arrives; k: after items[0..k) were processed
 	Stay   bool   `json:"stay"`    // rtmp / flv: stays attached when its incarnation ends (until lal disposes it or the case ends)
@@ -59,7 +59,7 @@ type Cons struct {
 
 // Inc is one incarnation of the stream name.
 type Inc struct {
-	Input  string     `json:"input"` // rtmp | cust
+	Input  string     `json:"input"` // rtmp | cust | rtsp (ANNOUNCE / RECORD, interleaved)
 	Codecs gen.Codecs `json:"codecs"`
 	Items  []gen.Item `json:"items"`
 	End    string     `json:"end"`  // close | kick | idle | dispose
@@ -79,6 +79,7 @@ type Case struct {
 	RecFlv  bool   `json:"rec_flv"`
 	RecTs   bool   `json:"rec_ts"`
 	HttpTs  bool   `json:"http_ts"`
+	Rtsp    bool   `json:"rtsp"` // RTSP enabled: RTSP publishers and subscribers are generated
 	Push    int    `json:"push"` // number of relay push targets (stubs)
 	Hook    bool   `json:"hook"`
 	Incs    []Inc  `json:"incs"`
@@ -90,14 +91,18 @@ type Case struct {
 
 var ascFreqOfInc = []int{4, 3, 6} // distinct per incarnation: AAC sequence headers of different incarnations differ
 
-func genCodecs(t *rapid.T, inc int) gen.Codecs {
+func genCodecs(t *rapid.T, inc int, input string) gen.Codecs {
 	var cd gen.Codecs
 	cd.Video = rapid.SampledFrom([]string{"avc", "avc", "avc", "hevc", "", ""}).Draw(t, "vcodec")
-	cd.Audio = rapid.SampledFrom([]string{"aac", "aac", "aac", "aac", "g711a", "opus", "", ""}).Draw(t, "acodec")
+	audio := []string{"aac", "aac", "aac", "aac", "g711a", "opus", "", ""}
+	if input == "rtsp" {
+		audio = []string{"aac", "aac", "aac", ""}
+	}
+	cd.Audio = rapid.SampledFrom(audio).Draw(t, "acodec")
 	if cd.Video == "" && cd.Audio == "" {
 		cd.Audio = "aac"
 	}
-	if cd.Video == "hevc" {
+	if cd.Video == "hevc" && input == "rtmp" {
 		cd.Enhanced = rapid.IntRange(0, 3).Draw(t, "enhanced") == 0
 	}
 	if cd.Audio == "aac" {
@@ -265,17 +270,19 @@ func genCase(t *rapid.T) Case {
 	c.RecFlv = rapid.IntRange(0, 2).Draw(t, "recFlv") != 0
 	c.RecTs = rapid.IntRange(0, 3).Draw(t, "recTs") != 0
 	c.HttpTs = rapid.IntRange(0, 3).Draw(t, "httpTs") != 0
+	c.Rtsp = rapid.IntRange(0, 4).Draw(t, "rtsp") != 0
 	c.Push = rapid.SampledFrom([]int{0, 0, 1, 1, 2}).Draw(t, "push")
 	c.Hook = rapid.Bool().Draw(t, "hook")
 	ninc := rapid.SampledFrom([]int{1, 2, 2, 2, 3}).Draw(t, "ninc")
 	v0 := rapid.IntRange(0, 2).Draw(t, "variant0")
 	for i := 0; i < ninc; i++ {
 		var in Inc
-		in.Input = rapid.SampledFrom([]string{"rtmp", "rtmp", "rtmp", "cust"}).Draw(t, "input")
-		in.Codecs = genCodecs(t, i)
-		if in.Input == "cust" {
-			in.Codecs.Enhanced = false
+		inputs := []string{"rtmp", "rtmp", "rtmp", "cust"}
+		if c.Rtsp {
+			inputs = []string{"rtmp", "rtmp", "cust", "rtsp", "rtsp"}
 		}
+		in.Input = rapid.SampledFrom(inputs).Draw(t, "input")
+		in.Codecs = genCodecs(t, i, in.Input)
 		in.Items, in.Tail = genItems(t, in.Codecs, i, (v0+i)%3, c.FragMs)
 		ends := []string{"close", "close", "kick", "idle"}
 		if in.Input == "cust" {
@@ -288,7 +295,7 @@ func genCase(t *rapid.T) Case {
 			}
 		}
 		in.End = rapid.SampledFrom(ends).Draw(t, "end")
-		if in.Input == "rtmp" && c.Push > 0 {
+		if in.Input != "cust" && c.Push > 0 {
 			in.PushLate = rapid.IntRange(0, 3).Draw(t, "pushLate") == 0
 		}
 		c.Incs = append(c.Incs, in)
@@ -296,6 +303,9 @@ func genCase(t *rapid.T) Case {
 	kinds := []string{"rtmp", "flv"}
 	if c.HttpTs {
 		kinds = append(kinds, "ts", "ts")
+	}
+	if c.Rtsp {
+		kinds = append(kinds, "rtsp", "rtsp")
 	}
 	n := rapid.IntRange(0, 4).Draw(t, "ncons")
 	for i := 0; i < n; i++ {
@@ -307,7 +317,7 @@ func genCase(t *rapid.T) Case {
 		} else {
 			k.JoinAt = rapid.IntRange(0, len(c.Incs[k.Inc].Items)).Draw(t, "joinAt")
 		}
-		k.Stay = k.Kind != "ts" && rapid.IntRange(0, 2).Draw(t, "stay") != 0
+		k.Stay = k.Kind != "ts" && k.Kind != "rtsp" && rapid.IntRange(0, 2).Draw(t, "stay") != 0
 		c.Cons = append(c.Cons, k)
 	}
 	return c
@@ -450,6 +460,7 @@ func classify(c Case) (bool, []string) {
 	add(c.Push > 0, "push")
 	add(c.Hook, "hook")
 	add(c.HttpTs, "http-ts")
+	add(c.Rtsp, "rtsp")
 	if c.Merge > 0 {
 		labels = append(labels, "rtmp-merge-write")
 	}
@@ -460,7 +471,7 @@ func classify(c Case) (bool, []string) {
 		if c.Hls {
 			labels = append(labels, "hls-end:"+in.End+"/"+ic)
 		}
-		if c.Push > 0 && in.Input == "rtmp" {
+		if c.Push > 0 && in.Input != "cust" {
 			if in.PushLate {
 				labels = append(labels, "push-end:"+in.End+"/handshake-in-flight")
 			} else {
@@ -482,6 +493,18 @@ func classify(c Case) (bool, []string) {
 		}
 		if i > 0 && shape(in.Codecs) != shape(c.Incs[i-1].Codecs) {
 			labels = append(labels, "codecs-change")
+		}
+		if i > 0 {
+			tr := "transition:" + c.Incs[i-1].Input + "->" + in.Input
+			labels = append(labels, tr)
+			for _, k := range c.Cons {
+				if k.Inc == i {
+					labels = append(labels, tr+"/watched-by:"+k.Kind)
+					if (c.Incs[i-1].Input == "rtsp") != (in.Input == "rtsp") {
+						nt = true
+					}
+				}
+			}
 		}
 	}
 	for _, k := range c.Cons {
